@@ -49,7 +49,7 @@ VH_DRIVER(fault){
     // every host kind with EVERY other component present (each component is one more request that can fail with the others already made)
     "s://u@[v7.X:y]:1/p/q?k=v#f","S://U%41@[2001:DB8::1]:8/P/./q?K=%7e#F","s://u:p@9.8.7.6:5/a/b?c#d","s://u@Reg%2dName.EX:80/p/q?k=v#f","//@[vA.b]?q","//[::]#f",
     // dot removal exposes a first segment that needs the "." guard back (the re-insertion allocates: its failure is a path of its own)
-    "./a:b","x/../a:b/c",".//a","x:/.//y","/a/..//b","s:/..//b","a/..//b","%2e/a:b","s:x/..//y/../z"}) uris.push_back(T(s));
+    "s://h/a//..","a//..","/a/b//../..","s:/x//../y//..","./a:b","x/../a:b/c",".//a","x:/.//y","/a/..//b","s:/..//b","a/..//b","%2e/a:b","s:x/..//y/../z"}) uris.push_back(T(s));
   long nuri=atol(arg_value(argc,argv,"--uris",th?"60":"0"));
   for(long i=0;i<nuri;++i){ Text t; const char*sc[]={"","s:","S+x:"}; const char*au[]={"","//h","//u%41@H:1","//[::1]","//1.2.3.4","//[vA.b]"}; t=T(sc[R.below(3)])+T(au[R.below(6)]); int n=R.below(7); for(int j=0;j<n;++j){ t.push_back('/'); const char*sg[]={"a",".","..","%41","","b%2Fc","x:y"}; t=t+T(sg[R.below(7)]); } if(R.below(2)) t=t+T("?q%41"); if(R.below(2)) t=t+T("#f%42"); uris.push_back(t); }
   std::vector<Text> bases; for(const char*s:{"s://g/x/y?z","s://1.2.3.4/x/","s://[::2]/a/b/c","s:/x/y","s://u@h:1/a/b?q#f","t://g/"}) bases.push_back(T(s));
